@@ -231,3 +231,82 @@ Example C07_nonvacuous_overlapped_reads :
       [RFeat 1 1 4 2 0 1 4 2; RFn 11 true false false false; RFn 12 true false true false; REnd])%N]%N /\
   strictly_accepted (judge minit sinit (snd (run init ops))) = true.
 Proof. vm_compute. split; reflexivity. Qed.
+
+(* ---- a notification write stalled inside a connection (During) ----
+   AddEntity / RemoveEntity change the entity list under the device lock, release it, and only then
+   send the notifications, from data fixed before the first write (the rendered entity, the list of
+   subscription entries).  [During add e q i]: the first write to peer q is held inside the
+   connection writer while [i] -- another peer's discovery read, or a peer's disconnect and
+   reconnect -- runs to completion; the runner executes exactly that on the real code and reports
+   Blocked when [i] returned only after the write had been released (clause STALL; an [i] that never
+   returns is the harness's implementation-never-returned).  The model is the sequential composition,
+   whatever peer is stalled: *)
+Theorem C07_during_is_sequence : forall s add e q i,
+  fst (step s (During add e q i)) = fst (run s [ent_op add e; inner_op i]) /\
+  exists n, snd (step s (During add e q i)) = Len n :: concat (map snd (snd (run s [ent_op add e; inner_op i]))).
+Proof.
+  intros s add e q i. unfold run, step. cbn [run_gen step_gen].
+  assert (H1 : step_gen true false s (ent_op add e) = step_base true false s (ent_op add e)) by (destruct add; reflexivity).
+  rewrite H1. destruct (step_base true false s (ent_op add e)) as [s1 o1].
+  assert (H2 : step_gen true false s1 (inner_op i) = step_base true false s1 (inner_op i)) by (destruct i; reflexivity).
+  rewrite H2. destruct (step_base true false s1 (inner_op i)) as [s2 o2]. cbn.
+  split; [reflexivity|]. eexists. rewrite app_nil_r. reflexivity.
+Qed.
+Print Assumptions C07_during_is_sequence.
+
+(* the stalled write commutes with what overlaps it: the notifications are exactly those of the plain
+   entity operation from the state before -- a peer that disconnects meanwhile still gets the one
+   decided before its disconnect, and none of its subscription entries is left afterwards --, and
+   which peer is stalled makes no difference *)
+Theorem C07_during_notifications : forall s add e q i,
+  exists n rest, snd (step s (During add e q i)) = Len n :: rest /\
+    firstn (N.to_nat n) rest = snd (step s (ent_op add e)) /\
+    skipn (N.to_nat n) rest = snd (step (fst (step s (ent_op add e))) (inner_op i)).
+Proof.
+  intros s add e q i. unfold step. cbn [step_gen].
+  assert (H1 : step_gen true false s (ent_op add e) = step_base true false s (ent_op add e)) by (destruct add; reflexivity).
+  rewrite H1. destruct (step_base true false s (ent_op add e)) as [s1 o1]. cbn [fst snd].
+  assert (H2 : step_gen true false s1 (inner_op i) = step_base true false s1 (inner_op i)) by (destruct i; reflexivity).
+  rewrite H2. destruct (step_base true false s1 (inner_op i)) as [s2 o2]. cbn [fst snd].
+  eexists. eexists. split; [reflexivity|]. rewrite Nat2N.id. split.
+  - rewrite firstn_app, firstn_all, Nat.sub_diag. simpl. apply app_nil_r.
+  - rewrite skipn_app, skipn_all, Nat.sub_diag. reflexivity.
+Qed.
+Print Assumptions C07_during_notifications.
+
+Theorem C07_during_any_stalled_peer : forall s add e q q' i,
+  step s (During add e q i) = step s (During add e q' i).
+Proof. reflexivity. Qed.
+
+Theorem C07_during_reconnect_subs : forall s add e q p x,
+  In x (subs (fst (step s (During add e q (IReconnect p))))) -> fst x <> p.
+Proof.
+  intros s add e q p x. unfold step. cbn [step_gen].
+  destruct (step_base true false s (ent_op add e)) as [s1 o1]. cbn. intros H.
+  apply filter_In in H. destruct H as [_ H]. apply negb_true_iff in H. apply N.eqb_neq in H. exact H.
+Qed.
+Print Assumptions C07_during_reconnect_subs.
+
+(* Non-vacuity: peers 0 and 1 subscribed; entity 1 is added with the write to peer 0 stalled while
+   peer 2 reads (the reply already lists entity 1); it is removed with the write to peer 1 stalled
+   while peer 0 disconnects (peer 0 still gets its removal notification); added again: only peer 1
+   is notified; a During on a missing entity object.  The monitor rejects a Blocked observation. *)
+Example C07_nonvacuous_during :
+  let ops := [NewEntity 1 5; AddFeature 1 4 2 0 []; Subscribe 0 0; Subscribe 1 1;
+              During true 1 0 (IRead 2); During false 1 1 (IReconnect 0); During true 1 0 (IRead 1);
+              Reconnect 1; During false 1 2 (IReconnect 2); During true 7 0 (IRead 0)] in
+  let e0 := [RFeat 0 0 1 3 0 0 1 3; RFn 1 true false false false; RFn 2 true false false false; RFn 3 true false false false;
+             RFn 4 false false false false; RFn 5 false false false false; RFn 6 true false false false;
+             RFn 7 false false false false; RFn 8 false false false false; RFn 9 true false false false;
+             RFeat 0 1 2 2 0 1 2 2; RFn 10 true false false false]%N in
+  skipn 4 (map snd (snd (run init ops))) =
+    [([Len 8; NBegin 0 0 true; REnt 1 5 1; RFeat 1 1 4 2 0 1 4 2; REnd; NBegin 1 1 true; REnt 1 5 1; RFeat 1 1 4 2 0 1 4 2; REnd;
+       RBegin 2 true; REnt 0 1 0; REnt 1 5 0] ++ e0 ++ [RFeat 1 1 4 2 0 1 4 2; REnd])%N;
+     [Len 6; NBegin 0 0 true; REnt 1 5 2; REnd; NBegin 1 1 true; REnt 1 5 2; REnd; OkDone]%N;
+     ([Len 4; NBegin 1 1 true; REnt 1 5 1; RFeat 1 1 4 2 0 1 4 2; REnd; RBegin 1 true; REnt 0 1 0; REnt 1 5 0] ++ e0 ++
+      [RFeat 1 1 4 2 0 1 4 2; REnd])%N;
+     [OkDone]; [Len 0; OkDone];
+     ([Len 1; NoEntity; RBegin 0 true; REnt 0 1 0] ++ e0 ++ [REnd])%N] /\
+  strictly_accepted (judge minit sinit (snd (run init ops))) = true /\
+  snd (mon minit (During true 1 0 (IRead 2)) [Len 1; NoEntity; Blocked]%N) = [CL_STALL; CL_REPLY].
+Proof. vm_compute. repeat split; reflexivity. Qed.
